@@ -199,23 +199,19 @@ func c46AExec(ctx *vk.Ctx, c c46ACase) error {
 		return nil
 	}
 	switch c.Kind {
-	case "wrongpass", "nopass":
+	case "wrongpass", "nopass", "long72":
 		if c46Same72(c.Pass, c.Wrong) {
 			ctx.Class("same-first-72-bytes")
-			if _, err := c46Unarmor(text, c.Wrong); err == nil && ctx.Known(c46Known72) {
-				return nil
+			got, err := c46Unarmor(text, c.Wrong)
+			if err == nil {
+				if ctx.Known(c46Known72) {
+					return nil
+				}
+				return fmt.Errorf("key encrypted with the %d-byte passphrase %q decrypts with the different %d-byte passphrase %q (key equal=%v): only the first 72 bytes of a passphrase are used", len(c.Pass), c.Pass, len(c.Wrong), c.Wrong, got.Equals(key))
 			}
+			return nil
 		}
 		return mustFail(fmt.Sprintf("using passphrase %q instead of %q", c.Wrong, c.Pass), text, c.Wrong)
-	case "long72":
-		got, err := c46Unarmor(text, c.Wrong)
-		if err == nil {
-			if ctx.Known(c46Known72) {
-				return nil
-			}
-			return fmt.Errorf("key encrypted with the %d-byte passphrase %q decrypts with the different %d-byte passphrase %q (key equal=%v): only the first 72 bytes of a passphrase are used", len(c.Pass), c.Pass, len(c.Wrong), c.Wrong, got.Equals(key))
-		}
-		return nil
 	case "ctbit", "cttrunc", "ctextend", "salt", "kdf":
 		m, err := c46Reframe(text, func(h map[string]string, body []byte) []byte {
 			switch c.Kind {
